@@ -1,3 +1,9 @@
 /* CBMC-only ghosts for contracts/strpriv.spec */
 size_t CI_D;          /* compare_ci: index examined by the step in progress */
 const char *CI_PROBE; int CI_HIT; size_t CI_WIT;   /* compare_ci contract stub: witness recorded for the candidate at CI_PROBE */
+
+/* record of the last leaf search call and first-occurrence witness (used by harness/leaf_stubs.h and by loop contracts of callers) */
+struct leaf_call { unsigned calls; int kind; const char *h; size_t n; const char *nd; size_t k; char ch; const char *ret; } LF;
+const char *FS_PROBE; int FS_HIT; size_t FS_WIT;     /* first-occurrence witness for the candidate at FS_PROBE */
+enum { LF_find_cs_needle = 1, LF_find_ci_needle, LF_find_ci_char };
+#define LEAF_EQ(ci, a, b) ((ci) ? FOLD(a) == FOLD(b) : (a) == (b))
